@@ -14,6 +14,7 @@ Next == /\ l <= Len(Rec)
                ok == /\ e.out.k = "ok"
                      /\ (e.args.op \in {"add_source", "add_name", "add", "add_raw"} => e.out.ret = r.ret)
                      /\ (e.out.obs # <<>> => MapObsOK(r.st, e.args.op, e.out.obs[1]))
+                     /\ (e.out.bobs # <<>> => BuilderObsOK(r.st, e.out.bobs[1]))          \* the builder's own getters
                      /\ (e.args.op \in {"into_sourcemap", "m_set_source_root", "m_set_source", "m_set_source_contents", "m_saveload"}
                             => e.out.obs # <<>>)
            IN /\ b' = IF e.out.k = "ok" /\ e.out.obs # <<>> THEN [r.st EXCEPT !.toks = e.out.obs[1].toks] ELSE r.st
